@@ -32,7 +32,7 @@ use domain::dnssec::sign::denial::nsec3::{generate_nsec3s, mk_hashed_nsec3_owner
 use domain::dnssec::sign::records::{DefaultSorter, RecordsIter, SortedRecords};
 use domain::rdata::dnssec::{RtypeBitmap, RtypeBitmapBuilder};
 use domain::rdata::nsec3::{Nsec3Salt, OwnerHash};
-use domain::rdata::{Aaaa, Cname, Dnskey, Ds, Mx, Ns, Nsec3param, Soa, Txt, ZoneRecordData, A};
+use domain::rdata::{Aaaa, Cname, Dname, Dnskey, Ds, Mx, Ns, Nsec3param, Ptr, Soa, Txt, ZoneRecordData, A};
 use model::*;
 use refs::*;
 use std::collections::{BTreeMap, BTreeSet};
@@ -67,6 +67,8 @@ fn to_record(z: &Zone, r: &ZRec) -> R {
             ))
         }
         Rd::Name(n) if r.rtype == NS => ZoneRecordData::Ns(Ns::new(to_name(n))),
+        Rd::Name(n) if r.rtype == DNAME => ZoneRecordData::Dname(Dname::new(to_name(n))),
+        Rd::Name(n) if r.rtype == PTR => ZoneRecordData::Ptr(Ptr::new(to_name(n))),
         Rd::Name(n) => ZoneRecordData::Cname(Cname::new(to_name(n))),
         Rd::Mx(p, n) => ZoneRecordData::Mx(Mx::new(*p, to_name(n))),
         Rd::A(a) => ZoneRecordData::A(A::from_octets(a[0], a[1], a[2], a[3])),
@@ -399,6 +401,24 @@ fn zone_classes(z: &Zone, a: &Analysis, ctx: &mut Ctx) -> bool {
     if a.owners.values().any(|o| o.is_cut && (o.types.contains(&DNSKEY) || o.types.contains(&NSEC3PARAM))) {
         ctx.class("zone:dnskey-or-nsec3param-at-delegation-point");
     }
+    // DNAME owners: ordinary authoritative data (RFC 6672), never a cut
+    for o in a.owners.values().filter(|o| o.types.contains(&DNAME)) {
+        if o.is_apex {
+            ctx.class("zone:dname-at-apex");
+        } else if !o.authoritative {
+            ctx.class("zone:dname-below-cut");
+        } else if o.is_cut {
+            ctx.class("zone:dname-at-delegation-point");
+        } else {
+            ctx.class("zone:dname-at-ordinary-non-apex-name");
+            if o.types.len() > 1 {
+                ctx.class("zone:dname-owner-with-other-types");
+            }
+        }
+    }
+    if a.owners.values().any(|o| o.authoritative && !o.is_cut && o.types.contains(&PTR)) {
+        ctx.class("zone:ptr-at-authoritative-name");
+    }
     if !a.ttl_judged() {
         ctx.class("zone:ttl-not-judged(non-apex-soa-in-authoritative-data)");
     }
@@ -562,6 +582,7 @@ fn kind_of(a: &Analysis, z: &Zone, n: &Labels) -> &'static str {
         Some(o) if o.is_apex => "apex",
         Some(o) if o.is_cut && o.has_ds() => "signed-delegation",
         Some(o) if o.is_cut => "unsigned-delegation",
+        Some(o) if o.types.contains(&DNAME) => "dname-owner",
         Some(_) if n.first().map(|l| l == b"*").unwrap_or(false) => "wildcard",
         Some(_) => "plain-name",
         None if a.ents_all.contains(&Canon::of(n)) => "ent",
@@ -1121,6 +1142,8 @@ fn health(c: &BTreeMap<String, u64>, _thorough: bool) -> Result<(), String> {
         "zone:soa-below-cut",
         "zone:dnskey-or-nsec3param-at-ordinary-non-apex-name",
         "zone:dnskey-or-nsec3param-at-delegation-point",
+        "zone:dname-at-ordinary-non-apex-name",
+        "zone:dname-owner-with-other-types",
         "zone:out-of-zone-before-with-unaligned-apex-suffix",
         "zone:out-of-zone-after-with-unaligned-apex-suffix",
         "zone:first-trailing-owner-has-unaligned-apex-suffix",
@@ -1166,9 +1189,9 @@ fn health(c: &BTreeMap<String, u64>, _thorough: bool) -> Result<(), String> {
 pub fn prop() -> Option<Prop> {
     Some(Prop {
         id: "C13",
-        rule: "a case is a generated zone (name tree under an apex with delegations, glue, occluded data, ENTs, wildcards, case variants, out-of-zone records incl. names whose wire form ends in the apex's wire form inside a label, SOA/DNSKEY/NSEC3PARAM at delegation points, ordinary names and below cuts, types in several bitmap windows) plus a generator configuration and 5..24 absent/present (name,type) probes; non-trivial = the zone has at least one non-authoritative name below a cut, or at least one empty non-terminal, or owner names that differ only in case (distinct by zone+configuration); bitmap cases are non-trivial with >= 2 windows, hash cases always",
+        rule: "a case is a generated zone (name tree under an apex with delegations, glue, occluded data, ENTs, wildcards, case variants, out-of-zone records incl. names whose wire form ends in the apex's wire form inside a label, SOA/DNSKEY/NSEC3PARAM at delegation points, ordinary names and below cuts, DNAME (alone or next to other types) and PTR at ordinary names, the apex, delegation points and below cuts, types in several bitmap windows) plus a generator configuration and 5..24 absent/present (name,type) probes; non-trivial = the zone has at least one non-authoritative name below a cut, or at least one empty non-terminal, or owner names that differ only in case (distinct by zone+configuration); bitmap cases are non-trivial with >= 2 windows, hash cases always",
         assumptions: &[
-            "input domain: records sorted through SortedRecords (the documented precondition), one class, exactly one SOA at the apex; at any other owner at most one SOA record (child apex data merged in at a delegation point, a stray SOA at an ordinary name, below a cut, outside the zone) — chain structure and bitmaps are judged for such zones, TTLs only when no SOA other than the apex's sits in authoritative data (the generators take TTLs from every SOA they walk over; the statement does not cover TTLs), uniform TTL per RRset (Rrset::new panics otherwise by design), unsigned zone (no RRSIG/NSEC/NSEC3 records in the input), apex name <= 222 octets so that the hashed owner name fits (longer apexes make generate_nsec3s panic in append_origin; not generated)",
+            "input domain: records sorted through SortedRecords (the documented precondition), one class, exactly one SOA at the apex; at any other owner at most one SOA record (child apex data merged in at a delegation point, a stray SOA at an ordinary name, below a cut, outside the zone) — chain structure and bitmaps are judged for such zones, TTLs only when no SOA other than the apex's sits in authoritative data (the generators take TTLs from every SOA they walk over; the statement does not cover TTLs), uniform TTL per RRset (Rrset::new panics otherwise by design), unsigned zone (no RRSIG/NSEC/NSEC3 records in the input), no records below the owner of a DNAME and at most one DNAME per owner (RFC 6672 §2.4; the DNAME owner itself is ordinary authoritative data, not a cut), apex name <= 222 octets so that the hashed owner name fits (longer apexes make generate_nsec3s panic in append_origin; not generated)",
             "NSEC3 zones are class IN (generate_nsec3s hard-codes Class::IN for its output)",
             "reference: RFC 4034 §6.1 order, §4.1.2 bitmap decoder, RFC 5155 §5 hash on ring::digest SHA-1, RFC 4648 base32hex — all in props/c13/refs.rs, checked against the RFC examples in unit tests",
             "with opt-out + exclusion the expected chain omits unsigned delegations and ENTs leading only to them (RFC 5155 §7.1)",
